@@ -30,6 +30,10 @@ class RemoveDebug(SuiteTransformer):
         if isinstance(node.test, ast.Name) and node.test.id == '__debug__':
             return True
 
+        if not (isinstance(node.test, ast.Compare) and isinstance(node.test.left, ast.Name) and node.test.left.id == '__debug__'):
+            # Only comparisons of __debug__ itself are a test of __debug__
+            return False
+
         if isinstance(node.test, ast.Compare) and len(node.test.ops) == 1 and isinstance(node.test.ops[0], ast.Is) and self.constant_value(node.test.comparators[0]) is True:
             return True
 
